@@ -1,9 +1,12 @@
 import NTV.Proofs.Lemmas.PolyModBasics
 import NTV.Proofs.Lemmas.PolyDivremMod
 import NTV.Proofs.Lemmas.PolyGcdMod
-/-! # C12 — roots modulo p with multiplicity: what is proved about the model so far.
-The full statement (the returned multiset equals the roots with multiplicity) is certified on every
-explored case by an independent brute-force / planted-root oracle; see lib/propinfo.py. -/
+import NTV.Proofs.Lemmas.PolyModLinearMain
+/-! # C12 — roots modulo p with multiplicity.
+First the building blocks (shift range, root test, inverse, division, gcd, input reduction); then, in the
+second part of the file, the full statement for every prime, every input and every history of draws:
+`roots_in_range`, `roots_sound`, `roots_complete` (the returned multiset equals the roots with
+multiplicity), with the corollaries `no_root_empty`, `splits_length`, `history_independent`. -/
 namespace NTV.C12
 open NTV.PolyMod
 
@@ -47,5 +50,154 @@ theorem input_reduction (f : List Int) (p : Int) (hp : 0 < p) :
     NTV.PolyMod.Reduced p (NTV.PolyMod.polyMod f p) ∧ NTV.PolyG.Canon (NTV.PolyMod.polyMod f p) ∧
     NTV.Hensel.PCong p (NTV.PolyG.toPoly (NTV.PolyMod.polyMod f p)) (NTV.PolyG.toPoly f) :=
   NTV.PolyMod.polyMod_reduced f p hp
+
+end NTV.C12
+
+/-! ## The full property: the returned list is the multiset of roots, for every history of draws
+
+`f mod p` is `(toPoly f).map (Int.castRingHom (ZMod p)) : (ZMod p)[X]`; "f mod p non-zero" is the
+hypothesis `hf`. The random shifts are the explicit stream `s`: the theorems quantify over all of them
+(a stream that is too short makes the model return `.error "inconclusive stream"`, never a wrong list). -/
+namespace NTV.C12
+open NTV.PolyMod NTV.PolyG Polynomial
+
+/-- "f mod p non-zero" in elementary terms: some coefficient is not divisible by p -/
+theorem nonzero_mod_iff (p : ℕ) (f : List Int) :
+    (toPoly f).map (Int.castRingHom (ZMod p)) ≠ 0 ↔ ∃ j, ¬ (p : Int) ∣ f.getD j 0 := by
+  rw [Ne, Polynomial.ext_iff, not_forall]
+  refine exists_congr fun j => ?_
+  rw [coeff_map, coeff_toPoly, coeff_zero, eq_intCast, ZMod.intCast_zmod_eq_zero_iff_dvd]
+
+/-- **C12 (1) range**: every returned value lies in [0, p) — all primes p, all f ≢ 0 mod p, all draw
+histories -/
+theorem roots_in_range (p : ℕ) [Fact p.Prime] (f : List Int) (s : NTV.Draw.Stream) (res : List Int)
+    (hf : (toPoly f).map (Int.castRingHom (ZMod p)) ≠ 0)
+    (h : findLinearFactors f p s = .ok res) : ∀ r ∈ res, 0 ≤ r ∧ r < (p : Int) :=
+  (findLinearFactors_spec p f s res hf h).1
+
+/-- **C12 (3) completeness with multiplicity** (implies (2)): the multiset of roots of f in F_p (Mathlib's
+`Polynomial.roots`, counted with multiplicity) equals the multiset of the returned list — all primes p,
+all f ≢ 0 mod p, all draw histories -/
+theorem roots_complete (p : ℕ) [Fact p.Prime] (f : List Int) (s : NTV.Draw.Stream) (res : List Int)
+    (hf : (toPoly f).map (Int.castRingHom (ZMod p)) ≠ 0)
+    (h : findLinearFactors f p s = .ok res) :
+    ((toPoly f).map (Int.castRingHom (ZMod p))).roots = Multiset.map (Int.cast : Int → ZMod p) (res : Multiset Int) :=
+  (findLinearFactors_spec p f s res hf h).2
+
+/-- **C12 (2) soundness with multiplicity**: every returned value is a root of f modulo p, and the
+product of the (X − r) over the returned list (with repetitions) divides f modulo p, so no value is
+returned more often than its multiplicity -/
+theorem roots_sound (p : ℕ) [Fact p.Prime] (f : List Int) (s : NTV.Draw.Stream) (res : List Int)
+    (hf : (toPoly f).map (Int.castRingHom (ZMod p)) ≠ 0)
+    (h : findLinearFactors f p s = .ok res) :
+    (∀ r ∈ res, Polynomial.eval r (toPoly f) ≡ 0 [ZMOD (p : Int)]) ∧
+    DvdP (p : Int) ((res.map (fun r => (X - C r : ℤ[X]))).prod) (toPoly f) := by
+  have hroots := roots_complete p f s res hf h
+  constructor
+  · intro r hr
+    have hmem : ((r : Int) : ZMod p) ∈ ((toPoly f).map (Int.castRingHom (ZMod p))).roots := by
+      rw [hroots]; exact Multiset.mem_map_of_mem _ (by simpa using hr)
+    have hroot := isRoot_of_mem_roots hmem
+    have := eval_red p f r
+    unfold red at this
+    rw [IsRoot.def, this, ZMod.intCast_zmod_eq_zero_iff_dvd, NTV.PolyG.eval_eq] at hroot
+    exact Int.modEq_zero_iff_dvd.mpr hroot
+  · rw [dvdP_map]
+    have hd := prod_multiset_X_sub_C_dvd ((toPoly f).map (Int.castRingHom (ZMod p)))
+    rw [hroots] at hd
+    have e : ((res.map (fun r => (X - C r : ℤ[X]))).prod).map (Int.castRingHom (ZMod p)) =
+        (Multiset.map (fun a => X - C a) (Multiset.map (Int.cast : Int → ZMod p) (res : Multiset Int))).prod := by
+      rw [Polynomial.map_list_prod, List.map_map, Multiset.map_map, Multiset.map_coe, Multiset.prod_coe]
+      congr 1
+      apply List.map_congr_left
+      intro r _
+      simp
+    rw [e]; exact hd
+
+/-- in particular the list is empty when f has no root in F_p -/
+theorem no_root_empty (p : ℕ) [Fact p.Prime] (f : List Int) (s : NTV.Draw.Stream) (res : List Int)
+    (hf : (toPoly f).map (Int.castRingHom (ZMod p)) ≠ 0)
+    (h : findLinearFactors f p s = .ok res)
+    (hno : ∀ x : ZMod p, Polynomial.eval x ((toPoly f).map (Int.castRingHom (ZMod p))) ≠ 0) : res = [] := by
+  have hroots := roots_complete p f s res hf h
+  have hz : ((toPoly f).map (Int.castRingHom (ZMod p))).roots = 0 :=
+    Multiset.eq_zero_of_forall_notMem fun x hx => hno x (isRoot_of_mem_roots hx)
+  rw [hz] at hroots
+  have := congrArg Multiset.card hroots
+  simp only [Multiset.card_zero, Multiset.card_map, Multiset.coe_card] at this
+  exact List.length_eq_zero_iff.mp this.symm
+
+/-- and has length deg(f mod p) when f mod p splits completely (as many roots, with multiplicity, as
+its degree) -/
+theorem splits_length (p : ℕ) [Fact p.Prime] (f : List Int) (s : NTV.Draw.Stream) (res : List Int)
+    (hf : (toPoly f).map (Int.castRingHom (ZMod p)) ≠ 0)
+    (h : findLinearFactors f p s = .ok res)
+    (hsplit : Multiset.card ((toPoly f).map (Int.castRingHom (ZMod p))).roots
+      = ((toPoly f).map (Int.castRingHom (ZMod p))).natDegree) :
+    res.length = ((toPoly f).map (Int.castRingHom (ZMod p))).natDegree := by
+  have hroots := roots_complete p f s res hf h
+  rw [hroots] at hsplit
+  simpa using hsplit
+
+/-- the answer does not depend on the history of draws, up to order: two successful runs return
+permutations of each other -/
+theorem history_independent (p : ℕ) [Fact p.Prime] (f : List Int) (s₁ s₂ : NTV.Draw.Stream) (res₁ res₂ : List Int)
+    (hf : (toPoly f).map (Int.castRingHom (ZMod p)) ≠ 0)
+    (h₁ : findLinearFactors f p s₁ = .ok res₁) (h₂ : findLinearFactors f p s₂ = .ok res₂) :
+    res₁.Perm res₂ := by
+  have e := (roots_complete p f s₁ res₁ hf h₁).symm.trans (roots_complete p f s₂ res₂ hf h₂)
+  have back : ∀ (res : List Int), (∀ r ∈ res, 0 ≤ r ∧ r < (p : Int)) →
+      Multiset.map (fun x : ZMod p => (x.val : Int)) (Multiset.map (Int.cast : Int → ZMod p) (res : Multiset Int))
+        = (res : Multiset Int) := by
+    intro res hr
+    rw [Multiset.map_map]
+    conv_rhs => rw [← Multiset.map_id (res : Multiset Int)]
+    apply Multiset.map_congr rfl
+    intro r hmem
+    obtain ⟨h0, h1⟩ := hr r (by simpa using hmem)
+    simp only [Function.comp_apply, id_eq, ZMod.val_intCast]
+    exact Int.emod_eq_of_lt h0 h1
+  have := congrArg (Multiset.map (fun x : ZMod p => (x.val : Int))) e
+  rw [back res₁ (roots_in_range p f s₁ res₁ hf h₁), back res₂ (roots_in_range p f s₂ res₂ hf h₂)] at this
+  exact Multiset.coe_eq_coe.mp this
+
+/-- the same for one call of the recursive routine `find_linear_factors_impl` with ANY fuel, any
+accumulated `result` and any stream: what it appends to `result` is the multiset of roots of `poly` -/
+theorem impl_roots (p : ℕ) [Fact p.Prime] (fuel : Nat) (poly result : List Int) (s : NTV.Draw.Stream)
+    (res : List Int) (s' : NTV.Draw.Stream) (hr : Reduced (p : Int) poly) (hc : Canon poly) (hne : poly ≠ [])
+    (h : findLinearImpl p fuel poly result s = .ok (res, s')) :
+    ∃ rs : List Int, res = result ++ rs ∧ (∀ r ∈ rs, 0 ≤ r ∧ r < (p : Int)) ∧
+      ((toPoly poly).map (Int.castRingHom (ZMod p))).roots = Multiset.map (Int.cast : Int → ZMod p) (rs : Multiset Int) := by
+  obtain ⟨rs, e1, e2, e3⟩ := findLinearImpl_spec p fuel poly result s res s' (good_of p poly hr hc hne) h
+  exact ⟨rs, e1, e2, by rw [← red, e3, roots_one]; exact add_zero _⟩
+
+/-- `poly_gcd(a, b, p)` is a GREATEST common divisor modulo the prime p: every common divisor of a and b
+modulo p divides the result modulo p (complements `gcd_divides_both`) -/
+theorem gcd_greatest (p : ℕ) (hp : p.Prime) (a b g : List Int)
+    (hra : Reduced (p : Int) a) (hrb : Reduced (p : Int) b) (hca : Canon a) (hcb : Canon b) (hb : b ≠ [])
+    (h : polyGcd a b (p : Int) = .ok g) (d : ℤ[X])
+    (hda : DvdP (p : Int) d (toPoly a)) (hdb : DvdP (p : Int) d (toPoly b)) : DvdP (p : Int) d (toPoly g) := by
+  rw [dvdP_map] at hda hdb ⊢
+  exact (polyGcd_red p hp a b g hra hrb hca hcb hb h).2.2.2.2.2 _ hda hdb
+
+/-! non-vacuity: concrete successful runs (two different draw histories for x² + 1 mod 5 return the two
+roots in different orders; a double root; the p = 2 branch) -/
+example : findLinearFactors [1, 0, 1] 5 [[0, 0, 0, 32], [0, 0, 0, 64], [0, 0, 0, 96]] = .ok [3, 2] := by decide +kernel
+example : findLinearFactors [1, 0, 1] 5 [[0, 0, 0, 0], [0, 0, 0, 64], [0, 0, 0, 96], [0, 0, 0, 32]] = .ok [2, 3] := by
+  decide +kernel
+example : findLinearFactors [0, 0, 3] 23 [[0, 0, 0, 8], [0, 0, 0, 16]] = .ok [0, 0] := by decide +kernel
+example : findLinearFactors [0, 0, 1, 1, 1] 2 [] = .ok [0, 0] := by decide +kernel
+example : findLinearFactors [2, 0, 1] 5 [[0, 0, 0, 32]] = .ok [] := by decide +kernel
+
+/-- the hypotheses are satisfiable: x² + 1 is non-zero modulo 5 -/
+example : (toPoly [1, 0, 1]).map (Int.castRingHom (ZMod 5)) ≠ 0 :=
+  (nonzero_mod_iff 5 [1, 0, 1]).mpr ⟨0, by decide⟩
+
+/-- and the theorem applied to that run: the roots of x² + 1 in F_5 are {3, 2} -/
+example : haveI : Fact (Nat.Prime 5) := ⟨by norm_num⟩
+    ((toPoly [1, 0, 1]).map (Int.castRingHom (ZMod 5))).roots = Multiset.map (Int.cast : Int → ZMod 5) (([3, 2] : List Int) : Multiset Int) :=
+  haveI : Fact (Nat.Prime 5) := ⟨by norm_num⟩
+  roots_complete 5 [1, 0, 1] [[0, 0, 0, 32], [0, 0, 0, 64], [0, 0, 0, 96]] [3, 2]
+    ((nonzero_mod_iff 5 [1, 0, 1]).mpr ⟨0, by decide⟩) (by decide +kernel)
 
 end NTV.C12
